@@ -20,6 +20,7 @@ def run(rep, tier, seed):
                      '(schoolbook product mod x^3-x-1) on the k-th designated operands, derived from the signature only; write set = designated '
                      'cells exactly; reads inside designated cells; kernel preconditions at every call site')
     nfun = 0
+    nalias = 0
     for cfg in ('avx2', 'avx512'):
         mod = front.module(cfg)
         names = mod.find_re(ext_spec.PAT)
@@ -28,7 +29,17 @@ def run(rep, tier, seed):
             nfun += 1
             ef = make_extents(mod.dem[n])
             wrapcheck.check_overload(rep, mod, cfg, n, ext_spec.spec, extents_fn=ef)
+            # in place: output aliased with an operand of identical shape (x = x op y on register triples / unit-stride arrays)
+            try:
+                hyps = ext_spec.inplace_hyps(mod.dem[n], harness.describe(mod, n))
+            except Incomplete:
+                hyps = []
+            for h in hyps:
+                nalias += 1
+                wrapcheck.check_overload(rep, mod, cfg, n, ext_spec.spec, alias=h, extents_fn=ef, sample=False)
     rep.cov['functions_analysed'] = nfun
+    rep.cov['in_place_hypotheses'] = nalias
+    rep.floor('same-shape in-place hypotheses', nalias, 119)
     rep.cov['configs'] = ['avx2', 'avx512']
     rep.trusted = ['clang 14 front end and -O0 lowering', 'glv abstract interpreter (IR subset semantics)',
                    'kernel contracts (proved separately by C01/C02/C11)', 'shape-code grammar of glv/specs/ext_spec.py',
